@@ -85,13 +85,13 @@ ALTS = {
 }
 PER_CLASS = {
     ('Posting', 'flag'): [None, '!', 'P'], ('Posting', 'number'): [None, D('1'), D('-2.50'), D('0'), D('-0.00')], ('Posting', 'currency'): [None, 'USD'],
-    ('Balance', 'number'): [D('1'), D('-2.50')], ('Amount', 'number'): [D('1'), D('-2.50'), D('0'), D('-0.00')], ('Tolerance', 'number'): [D('0.01')],
+    ('Balance', 'number'): [D('1'), D('-2.50')], ('Amount', 'number'): [D('1'), D('-2.50'), D('0'), D('-0.00'), D('-123456789012.123456789012345678')], ('Tolerance', 'number'): [D('0.01')],
     ('UnitPrice', 'number'): [None, D('3')], ('TotalPrice', 'number'): [None, D('3')], ('UnitPrice', 'currency'): [None, 'GBP'], ('TotalPrice', 'currency'): [None, 'GBP'],
     ('CostSpec', 'currency'): [None, 'EUR'], ('CostSpec', 'date'): [None, DT(2000, 1, 2)], ('CompoundAmount', 'currency'): ['EUR'],
     ('Option', 'value'): ['v', STR_TRICKY], ('Option', 'key'): ['title'], ('Pushmeta', 'value'): [None, 'v', D('-1'), True, DT(2000, 1, 2)],
     ('MetaItem', 'value'): [None, 'v', D('-1'), D('-0.0'), False, DT(2000, 1, 2), lambda: M.Account.from_value('Assets:M'), lambda: M.Amount.from_value(D('-3'), 'USD'),
                             lambda: M.Null.from_default(), STR_TRICKY],
-    ('NumberExpr', 'value'): [D('1'), D('-2.5'), D('0'), D('1000000'), D('-0.00'), D('-0')],
+    ('NumberExpr', 'value'): [D('1'), D('-2.5'), D('0'), D('1000000'), D('-0.00'), D('-0'), D('123456789012.123456789012345678'), D('-123456789012.123456789012345678')],
     ('Transaction', 'meta'): META[:4],
 }
 CLASSES = ['Amount', 'Balance', 'Close', 'Commodity', 'CompoundAmount', 'CostSpec', 'Document', 'Event', 'Include', 'MetaItem', 'Note', 'NumberExpr',
